@@ -842,6 +842,8 @@ func runC09(a args, o *out) {
 		big.lens = append(big.lens, n)
 	}
 
+	bigPlain := &sessCfg{name: "big-plain", lens: big.lens}
+
 	nworkers := 4
 	if thorough {
 		nworkers = 8
@@ -889,23 +891,61 @@ func runC09(a args, o *out) {
 	}
 
 	var jobs []c09Job
-	addJob := func(cfg *sessCfg, dir int, k int64) {
+	// addJob plans a run; mode < 0 chooses the cut mode from the derived seed.
+	addJob := func(cfg *sessCfg, dir int, k int64, mode int) {
 		idx := len(jobs)
 		jr := hx.NewRand(a.seed ^ uint64(idx+1)*0x9E3779B97F4A7C15)
 		j := c09Job{idx: idx, cfg: cfg, tag: jr.U64()}
-		mode := modeClose
+		m := modeClose
 		switch jr.Intn(4) {
 		case 2:
-			mode = modeRST
+			m = modeRST
 		case 3:
-			mode = modeHalf
+			m = modeHalf
 		}
-		j.plan = cutPlan{dir: dir, k: k, mode: mode, corrupt: os.Getenv("MPXFAULT_SELFTEST") == "corrupt"}
+		if mode >= 0 {
+			m = mode
+		}
+		j.plan = cutPlan{dir: dir, k: k, mode: m, corrupt: os.Getenv("MPXFAULT_SELFTEST") == "corrupt"}
 		if jr.Intn(10) == 0 {
 			j.rec = recOnDemand + jr.Intn(2)
 		}
 		j.rpc = jr.Intn(8) == 0
 		jobs = append(jobs, j)
+	}
+	// addBig plans the cuts of a session with the 200 KiB message: every stride bytes, and every
+	// offset within 8 bytes of a frame (or lz4 block) boundary.
+	addBig := func(cfg *sessCfg, stride int64, boundaries bool) {
+		d, ok := dryRun(cfg)
+		if !ok {
+			o.note("note=dry-run-failed sess=" + cfg.name)
+			return
+		}
+		o.note(fmt.Sprintf("note=dry sess=%s b_c2s=%d b_s2c=%d boundaries_c2s=%d boundaries_s2c=%d",
+			cfg.name, d.b[0], d.b[1], len(d.bounds[0]), len(d.bounds[1])))
+		for dir := 0; dir < 2; dir++ {
+			ks := map[int64]bool{}
+			for k := int64(a.seed) % stride; k <= d.b[dir]; k += stride {
+				ks[k] = true
+			}
+			if boundaries {
+				for _, b := range d.bounds[dir] {
+					for dd := int64(-8); dd <= 8; dd++ {
+						if k := b + dd; k >= 0 && k <= d.b[dir] {
+							ks[k] = true
+						}
+					}
+				}
+			}
+			sorted := make([]int64, 0, len(ks))
+			for k := range ks {
+				sorted = append(sorted, k)
+			}
+			sort.Slice(sorted, func(i, j int) bool { return sorted[i] < sorted[j] })
+			for _, k := range sorted {
+				addJob(cfg, dir, k, -1)
+			}
+		}
 	}
 
 	dSmall, ok := dryRun(small)
@@ -913,54 +953,32 @@ func runC09(a args, o *out) {
 		o.note("note=dry-run-failed sess=small")
 		return
 	}
-	o.note(fmt.Sprintf("note=dry sess=small b_c2s=%d b_s2c=%d frames_c2s=%d frames_s2c=%d",
+	o.note(fmt.Sprintf("note=dry sess=small b_c2s=%d b_s2c=%d boundaries_c2s=%d boundaries_s2c=%d",
 		dSmall.b[0], dSmall.b[1], len(dSmall.bounds[0]), len(dSmall.bounds[1])))
 	if thorough {
+		// every offset, both directions, every cut mode
 		for dir := 0; dir < 2; dir++ {
 			for k := int64(0); k <= dSmall.b[dir]; k++ {
-				addJob(small, dir, k)
-			}
-		}
-		dBig, ok := dryRun(big)
-		if !ok {
-			o.note("note=dry-run-failed sess=big-lz4")
-		} else {
-			o.note(fmt.Sprintf("note=dry sess=big-lz4 b_c2s=%d b_s2c=%d blocks_c2s=%d blocks_s2c=%d",
-				dBig.b[0], dBig.b[1], len(dBig.bounds[0]), len(dBig.bounds[1])))
-			for dir := 0; dir < 2; dir++ {
-				ks := map[int64]bool{}
-				for k := int64(0); k <= dBig.b[dir]; k += 97 {
-					ks[k] = true
-				}
-				for _, b := range dBig.bounds[dir] {
-					for d := int64(-8); d <= 8; d++ {
-						if k := b + d; k >= 0 && k <= dBig.b[dir] {
-							ks[k] = true
-						}
-					}
-				}
-				sorted := make([]int64, 0, len(ks))
-				for k := range ks {
-					sorted = append(sorted, k)
-				}
-				sort.Slice(sorted, func(i, j int) bool { return sorted[i] < sorted[j] })
-				for _, k := range sorted {
-					addJob(big, dir, k)
+				for mode := modeClose; mode <= modeHalf; mode++ {
+					addJob(small, dir, k, mode)
 				}
 			}
 		}
+		addBig(big, 97, true)
+		addBig(bigPlain, 97, true)
 	} else {
-		// Quick: every offset of one direction (chosen by the seed), and a stride over the other
-		// direction so that the total stays small.
+		// Quick: every offset of one direction (chosen by the seed), a stride over the other
+		// direction, and a coarse stride over the session with the big message.
 		dir := int(a.seed % 2)
 		for k := int64(0); k <= dSmall.b[dir]; k++ {
-			addJob(small, dir, k)
+			addJob(small, dir, k, -1)
 		}
 		other := 1 - dir
 		stride := (dSmall.b[other] + 300) / 300
 		for k := int64(a.seed) % stride; k <= dSmall.b[other]; k += stride {
-			addJob(small, other, k)
+			addJob(small, other, k, -1)
 		}
+		addBig(big, 2039, false)
 	}
 
 	// Execute the jobs on the workers, print the results in job order.
